@@ -294,9 +294,13 @@ func TestC02_ConcurrentBlocks(t *testing.T) {
 	h.MarkExhaustive("blocks-positions")
 	reps := h.Scale(4, 32)
 	h.Sweep(t, h.P{Name: "blocks-positions", Journal: true}, func(emit func(cbCase)) {
-		conc := wantConc[h.Cfg]
-		if conc == 0 {
-			conc = 1 // pure Go tier: no batch interface; a handful of cases record that fact
+		// the width the cipher under test really announces (not asserted for
+		// configurations without a wantConc entry, e.g. avxoff)
+		conc := 1 // pure Go tier: no batch interface; a handful of cases record that fact
+		if b, err := probeCipher(); err == nil {
+			if cb, ok := b.(concurrentBlocks); ok && cb.Concurrency() >= 1 && cb.Concurrency() <= 64 {
+				conc = cb.Concurrency()
+			}
 		}
 		i := uint64(0)
 		for mult := 1; mult <= 2; mult++ {
